@@ -554,6 +554,7 @@ package sizes
 //@   ghost nTag counts RegisterTag
 //@   ghost nRef counts RegisterReference
 //@   ghost nInc counts Progress.Inc
+//@   ghost nRootSeen counts Root.Walk
 //@   ghost nStart counts Progress.Start
 //@   ghost nDone counts Progress.Done
 // C18 "once a phase's final line is written no further line for that phase
@@ -601,8 +602,16 @@ package sizes
 //@   loop 4 step tg1 && tg2 == nil && tg0.ObjectType == "tag"
 //@   loop 4 step nTag == prev(nTag) + 1 && nInc == prev(nInc) + 1
 //@   loop 5 invariant nTag == len(*tags) && nCommit == len(*commits) && nTree == len(*trees)
+// C07 "the reference count equals the number of references": every root that
+// is a reference is registered, whatever the name style
 //@   loop 5 step nInc == prev(nInc) + 1
+//@   loop 5 invariant nRootSeen == rangeindex + 1
+//@   loop 5 step implements(root, "sizes.ReferenceRoot") ==> nRef == prev(nRef) + 1
+//@   loop 5 step !implements(root, "sizes.ReferenceRoot") ==> nRef == prev(nRef)
 //@   ensures result1 == nil ==> nTree == len(*trees) && nCommit == len(*commits) && nTag == len(*tags)
+// ... and every root is visited by the final pass (reference tallies, names),
+// whatever the name style
+//@   ensures result1 == nil ==> nRootSeen == len(roots)
 
 //@ property C01: ScanRepositoryUsingGraph ScanRepositoryUsingGraph$1$1 NewGraph (*Graph).HistorySize
 //@ property C10: ScanRepositoryUsingGraph ScanRepositoryUsingGraph$1$1
@@ -951,4 +960,4 @@ package sizes
 //@ property C19: (*Footnotes).String (*item).CollectItems (*section).CollectItems
 //@ property C11: newItem (*item).CollectItems (*section).CollectItems (*item).Indented newSection
 //@ property C01: NewExplicitRoot
-//@ property C08: (*Graph).RegisterName
+//@ property C08: (*Graph).RegisterName structural/items-well-formed
